@@ -689,6 +689,8 @@ attrconverters = {
 	((FONS,u'margin-top'), None): cnv_string,
 	((FONS,u'max-height'), None): cnv_string,
 	((FONS,u'max-width'), None): cnv_string,
+	((FONS,u'min-height'), (DRAWNS,u'text-box')): cnv_lengthorpercent,
+	((FONS,u'min-height'), (STYLENS,u'graphic-properties')): cnv_lengthorpercent,
 	((FONS,u'min-height'), None): cnv_length,
 	((FONS,u'min-width'), None): cnv_string,
 	((FONS,u'orphans'), None): cnv_string,
@@ -1190,6 +1192,7 @@ attrconverters = {
 	((SVGNS,u'gradientTransform'), None): cnv_string,
 	((SVGNS,u'gradientUnits'), None): cnv_string,
 	((SVGNS,u'hanging'), None): cnv_integer,
+	((SVGNS,u'height'), (PRESENTATIONNS,u'placeholder')): cnv_lengthorpercent,
 	((SVGNS,u'height'), None): cnv_length,
 	((SVGNS,u'ideographic'), None): cnv_integer,
 	((SVGNS,u'mathematical'), None): cnv_integer,
@@ -1200,6 +1203,7 @@ attrconverters = {
 	((SVGNS,u'overline-thickness'), None): cnv_integer,
 	((SVGNS,u'panose-1'), None): cnv_string,
 	((SVGNS,u'path'), None): cnv_string,
+	((SVGNS,u'r'), (SVGNS,u'radialGradient')): cnv_lengthorpercent,
 	((SVGNS,u'r'), None): cnv_length,
 	((SVGNS,u'rx'), None): cnv_length,
 	((SVGNS,u'ry'), None): cnv_length,
@@ -1226,12 +1230,17 @@ attrconverters = {
 	((SVGNS,u'v-ideographic'), None): cnv_integer,
 	((SVGNS,u'v-mathematical'), None): cnv_integer,
 	((SVGNS,u'viewBox'), None): cnv_viewbox,
+	((SVGNS,u'width'), (PRESENTATIONNS,u'placeholder')): cnv_lengthorpercent,
 	((SVGNS,u'width'), None): cnv_length,
 	((SVGNS,u'widths'), None): cnv_string,
+	((SVGNS,u'x'), (DRAWNS,u'glue-point')): cnv_lengthorpercent,
+	((SVGNS,u'x'), (PRESENTATIONNS,u'placeholder')): cnv_lengthorpercent,
 	((SVGNS,u'x'), None): cnv_length,
 	((SVGNS,u'x-height'), None): cnv_integer,
 	((SVGNS,u'x1'), None): cnv_lengthorpercent,
 	((SVGNS,u'x2'), None): cnv_lengthorpercent,
+	((SVGNS,u'y'), (DRAWNS,u'glue-point')): cnv_lengthorpercent,
+	((SVGNS,u'y'), (PRESENTATIONNS,u'placeholder')): cnv_lengthorpercent,
 	((SVGNS,u'y'), None): cnv_length,
 	((SVGNS,u'y1'), None): cnv_lengthorpercent,
 	((SVGNS,u'y2'), None): cnv_lengthorpercent,
